@@ -141,6 +141,20 @@ class Realised:
         if kind == "td":
             fs = [(f["name"], self.ty(f["ty"]) if f["ty"] is not None else Any, f.get("required", True)) for f in c["fields"]]
             return make_typeddict(name, fs, (self.uid + ci) % 3)
+        if kind == "nt":
+            # `class K(NamedTuple): a: T1; b: T2 = d` (class syntax, so that defaults are possible); every other
+            # class is spelled through the functional form `NamedTuple(name, [...])`
+            anns = {f["name"]: self.ty(f["ty"]) if f["ty"] is not None else Any for f in c["fields"]}
+            dfl = {f["name"]: self.val(f["dflt"][1]) for f in c["fields"] if f["dflt"] is not None}
+            if not dfl and (self.uid + ci) % 2 == 0:
+                return typing.NamedTuple(name, list(anns.items()))
+
+            def body(ns):
+                ns["__module__"] = __name__
+                ns["__annotations__"] = anns
+                ns.update(dfl)
+
+            return types.new_class(name, (typing.NamedTuple,), {}, body)
         if kind == "attrs":
             flds = {}
             for f in c["fields"]:
@@ -250,7 +264,7 @@ class Realised:
             return Final[self.ty(t[1])]
         if k == "alias":
             return typing.TypeAliasType(f"TA{self.uid}_{len(self._ty_cache)}", self.ty(t[1]))
-        if k == "cls" or k == "td":
+        if k == "cls" or k == "td" or k == "nt":
             if t[1] == self._building:
                 return typing.Self
             return self.classes[t[1]]
@@ -325,11 +339,31 @@ class Realised:
             return Opaque(o[1])
         raise ValueError(o)
 
-    def abs(self, v):
+    def abs_un(self, v):
+        """python value -> abstract object, for UNSTRUCTURED data: an instance of a NamedTuple class that passed
+        through (nothing to convert) counts as the tuple it is"""
+        return self.abs(v, nt_as_tuple=True)
+
+    def abs(self, v, nt_as_tuple=False):
         """python value -> abstract object (exact classes)"""
         if v is None:
             return ("N",)
         cl = v.__class__
+        if nt_as_tuple:
+            if cl in self._cls_index and self.world["classes"][self._cls_index[cl]]["kind"] == "nt":
+                return ("t", [self.abs(x, True) for x in v])
+            if cl in (list, tuple, collections.deque, set, frozenset):
+                tag = {list: "l", tuple: "t", collections.deque: "q", set: "S", frozenset: "F"}[cl]
+                return (tag, [self.abs(x, True) for x in v])
+            if cl is dict:
+                return ("d", [(self.abs(k, True), self.abs(x, True)) for k, x in v.items()])
+            if cl in self._cls_index:
+                ci = self._cls_index[cl]
+                try:
+                    return ("I", ci, [(f["name"], self.abs(getattr(v, f["name"]), True))
+                                      for f in self.world["classes"][ci]["fields"]])
+                except AttributeError:
+                    raise Unrepresentable(v) from None
         if cl is bool:
             return ("b", v)
         if cl is int:
